@@ -10,8 +10,10 @@ from __future__ import print_function
 import collections
 import io
 import json
+import os
 import random
 import re
+import time
 
 import backends as B
 import common
@@ -3305,10 +3307,20 @@ def run_c10(report):
     per = collections.Counter()
     n_spell = n_ns = 0
     ftp_cov, ftp_pool, ftp_pending = c10_ftp_start(report, thorough)      # FTPFS batteries run beside the loop below
-    for bc in backs:
-        for hi, h in enumerate(c10_name_states(bc, report.seed, thorough) +      # the name family first, on every backend
+    # thorough tier: every backend gets every history it has time for - the wall-clock budget is shared out evenly (unused
+    # time rolls over to the next backend), the name family and at least 10 histories always run; what is left out is
+    # counted in the evidence (histories_skipped_for_time)
+    t_loop = time.time()
+    budget = float(os.environ.get("PYFS2_VERIF_C10_THOROUGH_BUDGET_S", "1200"))
+    skipped_for_time = collections.Counter()
+    for bi, bc in enumerate(backs):
+        names_first = c10_name_states(bc, report.seed, thorough)
+        for hi, h in enumerate(names_first +      # the name family first, on every backend
                                (hs if bc in (B.Mem, B.OS) or thorough else hs[:6] if bc in C10_HETERO
                                 else hs[:8] if bc in B.LINKED else hs[:25])):
+            if thorough and hi >= len(names_first) + 10 and time.time() > t_loop + budget * (bi + 1) / len(backs):
+                skipped_for_time[bc.name] += 1
+                continue
             b = bc()
             try:
                 fs = b.make()
@@ -3418,6 +3430,7 @@ def run_c10(report):
         wrapper_objects=[bc.name for bc in C10_WRAPPED], pending_findings_seen=dict(pending_seen),
         ftpfs_loopback_server=ftp_cov,
         symbolic_link_trees=[bc.name for bc in B.LINKED], directories_compared_per_namespace_subset=n_ns,
+        histories_skipped_for_time=dict(skipped_for_time), thorough_wall_budget_s=budget if thorough else None,
         namespace_rule="scandir(d, namespaces=S) infos = getinfo(join(d, name), namespaces=S) on every namespace both carry "
                        "(volatile keys %s excluded), for S over the subsets of %s (quick tier: the full set, the singletons "
                        "and four more chosen by the path; thorough: all %d); OS-backed trees also hold symbolic links to "
